@@ -18,6 +18,7 @@ def c01_threads_do_the_io(ctx):
     if prog is None:
         ctx.ob("R01.7", "windows-build", False, "", "windows configuration unavailable")
         return
+    prog = prog.as_written      # modular view: the helper closures as units
     sites = []
     for p, fn in sorted(prog.fns.items()):
         if p.startswith("<builder::"):
@@ -52,6 +53,8 @@ def c02_routing(ctx):
     prog = _win(ctx)
     if prog is None:
         return
+    prog = prog.as_written      # modular view: the helper closures as units
+    prog = prog.as_written      # modular view: the helper closures as units
     g = prog.fn(RAW + "RawCommunicator::read_into::{closure#0}")
     if g is None:
         ctx.missing("R02.6", "grow_result closure")
@@ -110,6 +113,7 @@ def c03_leftover(ctx):
     prog = _win(ctx)
     if prog is None:
         return
+    prog = prog.as_written      # modular view: the helper closures as units
     g = prog.fn(RAW + "RawCommunicator::read_into::{closure#0}")
     ri = prog.one(RAW + "RawCommunicator::read_into")
     if g is None:
